@@ -128,6 +128,15 @@ func influences(v ssa.Value) bool {
 func controlMatters(iff *ssa.If, walk func(ssa.Value) bool) bool {
 	b := iff.Block()
 	fn := b.Parent()
+	// an assertion — one arm is a dead-end panic — does not choose between values: everything after it runs
+	// unchanged whenever the run continues at all
+	for _, s := range b.Succs {
+		if len(s.Succs) == 0 && len(s.Instrs) > 0 {
+			if _, isPanic := s.Instrs[len(s.Instrs)-1].(*ssa.Panic); isPanic {
+				return false
+			}
+		}
+	}
 	region := map[*ssa.BasicBlock]bool{}
 	for i, s := range b.Succs {
 		if len(s.Preds) != 1 {
